@@ -234,10 +234,43 @@ class CsCheck:
                 if mv:
                     catalogue[p["name"]] = mv.group(1)
         all_methods = {r["method"] for r in mm.doc.get("requests", [])} | {r["method"] for r in mm.doc.get("notifications", [])}
+        def derived(method, suffix):
+            m_ = method[1:] if method.startswith("$") else method
+            parts = re.sub(r"([a-z0-9])([A-Z])", r"\1 \2", m_.replace("/", "_").replace("_", " ")).split()
+            n_ = "".join(p_.capitalize() for p_ in parts)
+            return n_ if n_.endswith(suffix) else n_ + suffix
+
+        resp_owner = {}
         for r in mm.doc.get("requests", []):
             self.counts["methods"] += 1
             tn = r.get("typeName")
             if not tn:
+                # no typeName: the class name is derived from the method; the pairing is read from the
+                # attributes themselves (whatever the response class is called, it must exist, be a
+                # response class, point back at this request class and belong to no other request)
+                tn = derived(r["method"], "Request")
+                c = files.get(tn)
+                if not c:
+                    self.fail("request class missing|no typeName", {"method": r["method"], "expected_class": tn})
+                    continue
+                la = [a for a in c["class_attrs"] if a.startswith("LSPRequest(")]
+                m_ = re.match(r'LSPRequest\("((?:[^"\\]|\\.)*)", typeof\((\w+)\)', la[0]) if len(la) == 1 else None
+                if not m_ or m_.group(1) != r["method"]:
+                    self.fail("request class does not carry its method string / response pairing", {"method": r["method"], "class": tn, "attrs": la})
+                    continue
+                rn = m_.group(2)
+                rc = files.get(rn)
+                if not rc or "IResponse<" not in rc.get("base", ""):
+                    self.fail("request is paired with something that is not a response class", {"method": r["method"], "class": tn, "paired_with": rn})
+                elif ("LSPResponse(typeof(%s))" % tn) not in rc["class_attrs"]:
+                    self.fail("response class is not paired with its request", {"method": r["method"], "response": rn, "attrs": rc["class_attrs"]})
+                if rn in resp_owner:
+                    self.fail("two requests share one response class", {"methods": [resp_owner[rn], r["method"]], "response": rn})
+                resp_owner[rn] = r["method"]
+                da = [a for a in c["class_attrs"] if a.startswith("Direction(")]
+                want = "Direction(MessageDirection.%s)" % up(r["messageDirection"])
+                if not da or any(a != want for a in da):
+                    self.fail("direction tag differs from the metamodel|request", {"method": r["method"], "class": tn, "got": da, "want": want})
                 continue
             c = files.get(tn)
             if not c:
@@ -254,11 +287,12 @@ class CsCheck:
             rc = files.get(rn)
             if not rc or ("LSPResponse(typeof(%s))" % tn) not in rc["class_attrs"]:
                 self.fail("response class is not paired with its request", {"method": r["method"], "response": rn, "attrs": rc and rc["class_attrs"]})
+            if rn in resp_owner:
+                self.fail("two requests share one response class", {"methods": [resp_owner[rn], r["method"]], "response": rn})
+            resp_owner[rn] = r["method"]
         for r in mm.doc.get("notifications", []):
             self.counts["methods"] += 1
-            tn = r.get("typeName")
-            if not tn:
-                continue
+            tn = r.get("typeName") or derived(r["method"], "Notification")
             c = files.get(tn)
             if not c:
                 self.fail("notification class missing", {"method": r["method"], "typeName": tn})
